@@ -11,7 +11,7 @@
 //!        contract's UTF-8 transcoding of the same input.
 //! shift_jis has no model: fragmentation independence of the real decoder + a fixed table of valid text.
 use grep_matcher::Matcher;
-use grep_regex::RegexMatcher;
+use grep_regex::{RegexMatcher, RegexMatcherBuilder};
 use grep_searcher::{BinaryDetection, Encoding, MmapChoice, Searcher, SearcherBuilder, Sink, SinkContext, SinkMatch};
 use rgverif_harness::*;
 use std::io::Read;
@@ -25,6 +25,12 @@ use cli_common::*;
 const CLASS_F13: &str = "utf8-bom-with-malformed-utf8";
 const CLASS_LABEL: &str = "utf8-bom-does-not-override-label";
 const CLASS_SECOND: &str = "second-bom-swallowed";
+const CLASS_MLFLUSH: &str = "multiline-reader-final-replacement-truncated";
+
+/// `got` is `want` minus the last 1-3 bytes of a final U+FFFD (the decoder's end-of-input flush cut short).
+fn tail_truncated(got: &[u8], want: &[u8]) -> bool {
+    want.ends_with(&[0xEF, 0xBF, 0xBD]) && want.len() > got.len() && want.len() - got.len() <= 3 && want.starts_with(got)
+}
 
 struct Ctx {
     rg: PathBuf,
@@ -284,7 +290,12 @@ fn run_lib(case: &str, drv: &mut Driver, rep: &mut Report) {
     let input = build_input(seed, kind, malformed == "1", big == "1");
     let (label, sniff, mlabel) = cfg_parts(cfg);
     let ml = ml == "1";
-    let matcher = RegexMatcher::new_line_matcher("needle").unwrap();
+    // multi-line strategy is only taken when the matcher may match a line terminator
+    let matcher: RegexMatcher = if ml {
+        RegexMatcherBuilder::new().multi_line(true).build("needle[\\s\\S]?").unwrap()
+    } else {
+        RegexMatcher::new_line_matcher("needle").unwrap()
+    };
     let _ = matcher.line_terminator();
     rep.eval();
     // (a) fragmented reader
@@ -309,7 +320,9 @@ fn run_lib(case: &str, drv: &mut Driver, rep: &mut Report) {
     rep.branch(&format!("lib:kind:{}", kind));
     rep.branch(&format!("lib:cfg:{}", cfg));
     rep.branch(&format!("lib:frag:{}", frag));
-    if ml { rep.branch("lib:multi-line"); }
+    if ml {
+        rep.branch(if searcher.multi_line_with_matcher(&matcher) { "lib:multi-line-strategy" } else { "lib:multi-line-requested-only" });
+    }
     if delivered.len() > 3 && (kind.starts_with("u16") || malformed == "1") { rep.nontrivial(case); }
     if r1.is_err() || r2.is_err() {
         rep.violation(Violation {
@@ -319,6 +332,29 @@ fn run_lib(case: &str, drv: &mut Driver, rep: &mut Report) {
         return;
     }
     let mut problems_spec: Vec<(String, &'static str)> = vec![];
+    // known class (multi-line strategy only): the final U+FFFD of the decoder's end-of-input flush is cut short
+    // when std's read_to_end happens to offer fewer than 4 bytes of room; which read that is depends on the
+    // capacity history of the searcher's buffer, so the three routes may differ among themselves
+    let longest = [&via_reader, &via_slice, &via_whole].iter().map(|v| v.len()).max().unwrap_or(0);
+    let full: Vec<u8> = [&via_reader, &via_slice, &via_whole].iter().find(|v| v.len() == longest).map(|v| (**v).clone()).unwrap_or_default();
+    let mut full = full;
+    if ml && !full.ends_with(&[0xEF, 0xBF, 0xBD]) {
+        // all three routes may be cut: complete the replacement character if the cut is visible
+        for (cut, add) in [(&[0xEFu8, 0xBF][..], &[0xBDu8][..]), (&[0xEFu8][..], &[0xBFu8, 0xBD][..])] {
+            if full.ends_with(cut) && std::str::from_utf8(&full).is_err() { full.extend_from_slice(add); break; }
+        }
+    }
+    let mut flush_cut = false;
+    let (via_reader, via_slice, via_whole) = if ml {
+        let fix = |v: Vec<u8>, flag: &mut bool| if tail_truncated(&v, &full) { *flag = true; full.clone() } else { v };
+        (fix(via_reader, &mut flush_cut), fix(via_slice, &mut flush_cut), fix(via_whole, &mut flush_cut))
+    } else {
+        (via_reader, via_slice, via_whole)
+    };
+    if flush_cut {
+        rep.branch("lib:class:multiline-flush-cut");
+        problems_spec.push(("multi-line strategy: the U+FFFD that ends the transcoding is cut short (1-2 of its 3 bytes, or none, are searched)".into(), CLASS_MLFLUSH));
+    }
     // F without any model: fragmentation and strategy must not matter
     if via_reader != via_whole {
         problems_spec.push((format!("fragmented reads give {} but one read gives {}", show(&via_reader[..via_reader.len().min(120)]), show(&via_whole[..via_whole.len().min(120)])), ""));
@@ -429,16 +465,25 @@ fn run_bin(case: &str, ctx: &mut Ctx, drv: &mut Driver, rep: &mut Report) {
     rep.branch(&format!("bin:cfg:{}", cfg));
     if !class.is_empty() { rep.branch(&format!("bin:class:{}", class)); }
     let base = ["--color", "never", "--no-config", "-n", "--no-filename", "-a"];
+    // every second case: multi-line search with a pattern that may match the line terminator
+    let ml = f.get("ml").map_or(false, |v| v == "1") || seed % 2 == 1;
+    let mlpat = format!("{}[\\s\\S]?", pat);
+    let ml_args: Vec<&str> = if ml { vec!["-U"] } else { vec![] };
+    let pat: &str = if ml { &mlpat } else { pat };
+    if ml { rep.branch("bin:multi-line"); }
     let mut rcmd = Command::new(&ctx.rg);
-    rcmd.current_dir(dir.join("ref")).args(base).args(["-E", "none", "--no-mmap", "-j1"]).arg(pat).arg("f.txt");
+    rcmd.current_dir(dir.join("ref")).args(base).args(["-E", "none", "--no-mmap", "-j1"]).args(&ml_args).arg(pat).arg("f.txt");
     let reference_out = run_cmd(&mut rcmd, None);
-    for mmap in ["--mmap", "--no-mmap"] {
+    for mmap in ["--mmap", "--no-mmap", "stdin"] {
         let mut cmd = Command::new(&ctx.rg);
-        cmd.current_dir(dir.join("enc")).args(base).arg(mmap).arg("-j1");
+        cmd.current_dir(dir.join("enc")).args(base).arg("-j1");
+        if mmap != "stdin" { cmd.arg(mmap); }
         if cfg != "auto" { cmd.args(["-E", cfg]); }
-        cmd.arg(pat).arg("f.txt");
-        let out = run_cmd(&mut cmd, None);
+        cmd.args(&ml_args).arg(pat);
+        if mmap != "stdin" { cmd.arg("f.txt"); } else { cmd.arg("-"); }
+        let out = if mmap == "stdin" { run_cmd(&mut cmd, Some(&input.bytes)) } else { run_cmd(&mut cmd, None) };
         if out.stdout != reference_out.stdout || out.exit() != reference_out.exit() {
+            let class = if class.is_empty() && ml && reference.ends_with(&[0xEF, 0xBF, 0xBD]) { CLASS_MLFLUSH } else { class };
             rep.violation(Violation {
                 kind: "impl_vs_spec".into(), class: class.into(),
                 tie: "rg on an encoded file vs rg -E none on its UTF-8 transcoding".into(),
@@ -471,7 +516,7 @@ fn main() {
          windows-1252 bytes; shift_jis text; texts mix ASCII, BMP, astral characters, U+FEFF, and (malformed stream, 50%) lone \
          and reversed surrogates / invalid UTF-8 (stray and missing continuations, overlong, encoded surrogates, > U+10FFFF). \
          Configurations auto / none / utf-8 / utf-16le / utf-16be / latin1 / shift_jis, matching or not. lib: fragment sizes 1, 2, 3, 7, \
-         mixed, 8191, 8192, 8193, whole; line-by-line and multi-line; small and 10-100 KB inputs. bin: --mmap and --no-mmap, 7 patterns. \
+         mixed, 8191, 8192, 8193, whole; line-by-line and multi-line (matcher that may match the terminator, so the multi-line strategy really runs); small and 10-100 KB inputs. bin: --mmap, --no-mmap and stdin, 7 patterns, half of them as multi-line searches (-U, pattern may match the terminator). \
          Non-trivial: lib: more than 3 fragments of a UTF-16 or malformed input; bin: the reference run prints something.",
     );
     let rg = args.rg.clone().expect("C17 needs --rg");
